@@ -42,6 +42,32 @@ CLAIMED = {
          "generated op sequences on every measurement type compared, after every step, with an independent reference fold (minimum, latest, warm-up mean, hull, non-negative variance), with a freshly constructed twin after each Reset, and with the change flag; exploration, not proof",
          "finite positive samples only (the property's domain); float comparisons with relative tolerance 1e-9 for means, exact elsewhere", "4/C18"),
 }
+CLAIMED.update({
+ "C01": ("rapid stateful testing on a virtual clock (sequential gate oracle) + generated cooperative schedules and real-thread runs whose recorded histories are checked for linearizability (porcupine) against an atomic counting gate",
+         "sequential: every Acquire granted iff outstanding < enforced limit while windows really close and the limit really moves; concurrent: worker programs under generated schedules (yields at the check-then-increment window, the sampling window, the scripted limit) and under real parallelism, the history incl. sample-driven limit updates must be linearizable against state=(held,limit)",
+         "schedules are explored, not exhausted; porcupine v1.3.0 trusted; real-thread mode is probabilistic", "4/C01"),
+ "C05": ("rapid stateful testing on a virtual clock: scripted estimate trajectories (0, negative, repeats) and real algorithms, enforcement compared after construction and after every event",
+         "DefaultLimiter over all four strategy kinds, constructed with a strategy limit different from the first estimate; after construction and after every event the strategy limit must equal max(1, estimate), every partition share max(1, ceil(limit*fraction)), and the limit / limit.partition gauges must agree",
+         "sequential completions (the update itself runs under the limiter lock); partition fractions fixed at 0.5/0.25", "4/C05"),
+ "C09": ("rapid model-based testing: (a) DefaultLimiter with a recording limit on a virtual clock (exact RTTs), (b) WindowedLimit with a recording delegate; OnSample lists compared element-wise with a reference fold",
+         "completion sequences with all outcomes, durations from 0 and generated in-flight values; the list of updates the algorithm receives must equal the reference fold (min or mean RTT, max in-flight, sticky drop flag, readiness rule, window period) element by element; ignored and sub-threshold completions leave no trace",
+         "the windowed limit's readiness rule (closing sample's in-flight > window size) is taken as pinned by the existing suite; the period after a window without any success is unspecified (inherited overflow) and not compared", "4/C09"),
+ "C12": ("rapid stateful testing on a virtual clock + generated cooperative schedules: backlog accounting at every quiescent point",
+         "queue limiter (all constructors, ordered pools): at every quiescent point queue_size gauge == backlog length == callers blocked in Acquire <= bound, queue_limit gauge == bound, a caller arriving at a full backlog is answered at the same virtual instant",
+         "quiescence via synctest.Wait; schedules sampled", "4/C12"),
+ "C13": ("rapid property-based testing on a virtual clock: exact instants for arrival, cancellation, release, timeout and deadline, compared with a reference model",
+         "one caller on each blocking limiter kind with timeout/deadline, cancellation and release instants generated around the arrival and around the bound (incl. exactly at it); (ok, return instant) must equal the model's; ties accept either answer at that instant",
+         "virtual clock is exact, so 'no later' and 'not before' are equalities", "4/C13"),
+ "C17": ("generated concurrent API-call programs under the Go race detector (race-detector stress; halt at first report)",
+         "every limit, wrapper, strategy (incl. partition objects), limiter stack, measurement and both registries: 2-8 goroutines run generated sequences of exported methods behind a start barrier in a -race binary; a race report or a concurrent-map fatal error is the violation",
+         "the race detector sees only races that occur in an executed interleaving; no shrinking (TSan reports a stack pair once per process); third-party code (go-metrics, datadog statsd) assumed race-free", "4/C17"),
+ "C19": ("rapid property-based testing on a virtual clock + generated cooperative schedules: pools with generated arrival offsets and hold times",
+         "fixed and generic pools in all orderings: the callers' own holder counter never exceeds the limit, every caller (callers <= limit+backlog) is granted within the sum of hold times of its arrival, zero state and full re-admission at the end",
+         "bounded liveness on the virtual clock", "4/C19"),
+ "C20": ("rapid property-based testing with a recording MetricRegistry (virtual clock) and with real go-metrics / statsd-writer back ends; registry life cycle on the real clock with logical stamps and goroutine ids",
+         "(a) one in-flight sample per admission decision equal to the count at the decision, gauges equal to enforced values, each processed sample emits rtt/in-flight once and a drop increment iff dropped; (b) each sample reaches the backend metric of the right kind under prefix+ID, gauges polled only between Start and Stop by a single poller, Stop returns and stops it",
+         "life-cycle oracles are load independent (stamps, goroutine ids); the two 30 s guards only ever yield 'inconclusive' unless a goroutine dump proves the hang; datadog checked at the statsd line level", "4/C20"),
+})
 PENDING_REASON = "check not built yet in this revision of the harness (planned, see DESIGN.md section 4)"
 
 props = [json.loads(l) for l in open(os.path.join(HERE, "properties.jsonl"))]
